@@ -141,7 +141,7 @@ class Weaver:
         return ''.join(out), faithful
 
 
-def weave_fn(text, spec, unit_name):
+def weave_fn(text, spec, unit_name, probe=False):
     """text: verbatim fn item.  spec: dict from the unit file."""
     w = Weaver(text)
     m = w.masked
@@ -202,10 +202,17 @@ def weave_fn(text, spec, unit_name):
             clauses.append(f'    {key}\n' + ''.join(f'        {c},\n' for c in spec[key]))
     if spec.get('decreases'):
         clauses.append(f'    decreases {spec["decreases"]}\n')
+    for at in spec.get('attrs', []):
+        # verifier attributes (resource limit, separate solver instance): ghost text
+        w.insert(0, at + '\n', 'verifier attribute')
     if spec.get('external_body'):
         w.insert(0, '#[verifier::external_body]\n', 'assumed contract (external_body)')
     if clauses:
         w.insert(body_open, '\n' + ''.join(clauses), 'contract')
+    if probe and not spec.get('external_body'):
+        # vacuity probe: with `assert(false)` as the first statement the function MUST fail to verify; if it verifies,
+        # its precondition is unsatisfiable and every postcondition holds vacuously
+        w.insert(body_open + 1, ' proof { assert(false); } ', 'vacuity probe')
     if spec.get('external_body'):
         # the body is not verified and need not even type-check inside the unit: drop it (logged)
         w.replace(body_open, body_close + 1, '{ unimplemented!() }', 'external_body: body dropped, contract ASSUMED')
@@ -339,7 +346,7 @@ def weave_fn(text, spec, unit_name):
     return out, faithful, w.log
 
 
-def build_unit(unit_path, out_path):
+def build_unit(unit_path, out_path, probe=False):
     with open(unit_path, 'rb') as f:
         u = tomllib.load(f)
     parts = ['// GENERATED on every run by vlib/verus.py from /repo — do not edit', 'use vstd::prelude::*;'] + list(u.get('header', [])) + ['verus! {', '']
@@ -369,10 +376,10 @@ def build_unit(unit_path, out_path):
         if group.get('prelude'):
             parts.append(open(os.path.join(VERIF, group['prelude'])).read())
         for fs in group['fn']:
-            _emit_fn(fs, parts, info, u, indent='')
+            _emit_fn(fs, parts, info, u, indent='', probe=probe)
         parts.append('}')
     for fs in u.get('fn', []):
-        _emit_fn(fs, parts, info, u, indent='')
+        _emit_fn(fs, parts, info, u, indent='', probe=probe)
     parts.append('} // verus!')
     parts.append('fn main() {}')
     text = '\n'.join(parts) + '\n'
@@ -392,7 +399,7 @@ def build_unit(unit_path, out_path):
     return u, info
 
 
-def _emit_fn(fs, parts, info, u, indent=''):
+def _emit_fn(fs, parts, info, u, indent='', probe=False):
     src = rd(os.path.join(REPO, fs['file'])).replace('\r\n', '\n')
     try:
         pos = rustlex.find_fn(src, fs['name'], fs.get('scope', ''))
@@ -400,7 +407,7 @@ def _emit_fn(fs, parts, info, u, indent=''):
         raise AnchorLost(f'{fs["file"]}: {e}')
     a, b = rustlex.fn_item_span(src, pos)
     orig = src[a:b]
-    woven, faithful, log = weave_fn(strip_docs(orig) if False else orig, fs, u['name'])
+    woven, faithful, log = weave_fn(strip_docs(orig) if False else orig, fs, u['name'], probe=probe)
     if not faithful:
         info['faithful'] = False
     for df in info.get('dropped_fields', []):
@@ -547,3 +554,33 @@ def run_unit(ctx, up):
     elif vr.get('verified', 0) > n_fn:
         ctx.obligations.append(Obligation(f'V:{u["name"]}::(prelude lemmas)', 'V', 'discharged', clause='lemmas over the contracts (no code): ' + str(vr.get('verified', 0) - n_fn) + ' proof/spec items', unit=u['name'], n_checks=vr.get('verified', 0) - n_fn, extra={'unbounded': True}))
     ctx._samples.append({'verus_unit': u['name'], 'functions_verified': n_fn, 'verus_summary': vr})
+    # ---- vacuity guard (every run): the same unit with `assert(false)` as first statement of every function under contract ----
+    if all(o.status == 'discharged' for o in ctx.obligations if getattr(o, 'unit', None) == u['name'] and o.engine == 'V'):
+        pout = out[:-3] + '_probe.rs'
+        try:
+            build_unit(up, pout, probe=True)
+            pp, perr, pwall, pcmd = run_verus(pout, timeout=u.get('timeout_s', 900))
+        except Exception as e:   # noqa
+            pp, perr, pwall = None, str(e), 0
+        vac = []
+        probed = 0
+        if pp is not None and perr is None:
+            pd = parse(pp)
+            pb = {}
+            for mod in (pd or {}).get('times-ms', {}).get('smt', {}).get('smt-run-module-times', []):
+                for fb in mod.get('function-breakdown', []):
+                    pb[fb['function'].split('::', 1)[1]] = fb
+            for f in info['functions']:
+                if f['assumed']:
+                    continue
+                for k, fb in pb.items():
+                    if k == f['name'] or k.endswith('::' + f['name']):
+                        probed += 1
+                        if fb.get('success'):
+                            vac.append(f['name'])
+        ctx._extra.setdefault('vacuity_probe', {})[u['name']] = {'functions_probed': probed, 'vacuous': vac, 'wall_s': round(pwall, 1),
+                                                              'how': 'assert(false) inserted as first statement of every function under contract; each must FAIL to verify'}
+        if vac:
+            ctx.infra_errors.append(f'V unit {u["name"]}: vacuous contract (precondition unsatisfiable) for: {", ".join(vac)}')
+        elif probed == 0:
+            ctx.infra_errors.append(f'V unit {u["name"]}: vacuity probe could not be evaluated ({perr or "no function breakdown"})')
